@@ -5,7 +5,7 @@ CONSTANTS
   NT = 1
   Vals = {"p"}
   Limits = {9}
-  NU = 1
+  NU = 2
   LookAhead = 1
   MaxOps = 1000000
   KeepHist = FALSE
